@@ -378,3 +378,127 @@ Example C17_ex_icmp4_untyped_model : 8 <= len [6; 9; 0; 0; 1; 2; 3; 4; 5] /\
   Icmpv4Slice.view [6; 9; 0; 0; 1; 2; 3; 4; 5] = Ok (V4Unknown 6 9 1 2 3 4, 8, [5]).
 Proof. split; [vm_compute; discriminate|]. split; [cbn; tauto|vm_compute; reflexivity]. Qed.
 (* ---- end audit1-c17 ---- *)
+
+(* ==== round3 smalls begin ==== *)
+(* Round 3 (audit clause h): "reject exactly the inputs that are too short or whose length units
+   are ... inconsistent" as NAMED iff statements for ICMPv4, ICMPv6, IGMP and ARP (so far exact
+   only implicitly, through the equalities with the specification functions above).  Each
+   theorem: a LenError is returned exactly for the named inputs, a value exactly for all others,
+   never the out-of-bounds marker; the `_record` theorems give the error record of each class.
+   Lemmas: CtlMsg/RejectIff.v (compositions of the equalities above; no new model). *)
+From EP Require Import CtlMsg.RejectIff.
+
+(* Icmpv4Slice::from_slice: fewer than 8 octets, or a timestamp / timestamp reply (13 / 14, code 0)
+   that is not exactly 20 octets long *)
+Theorem C17_icmp4_reject_iff : forall bs,
+  let R := len bs < 8 \/ ((byte_at bs 0 = 13 \/ byte_at bs 0 = 14) /\ byte_at bs 1 = 0 /\ len bs <> 20) in
+  ((exists e, Icmpv4Slice.view bs = ErrLen e) <-> R) /\
+  ((exists v, Icmpv4Slice.view bs = Ok v) <-> ~ R) /\
+  (forall n, Icmpv4Slice.view bs <> UB n).
+Proof. exact icmp4_reject_iff. Qed.
+Print Assumptions C17_icmp4_reject_iff.
+
+Theorem C17_icmp4_reject_record : forall bs e, Icmpv4Slice.view bs = ErrLen e ->
+  (len bs < 8 /\ e = mkLenError 8 (len bs) LsSlice LIcmpv4 0) \/
+  (8 <= len bs /\ byte_at bs 0 = 13 /\ byte_at bs 1 = 0 /\ len bs <> 20 /\
+   e = mkLenError 20 (len bs) LsSlice LIcmpv4Timestamp 0) \/
+  (8 <= len bs /\ byte_at bs 0 = 14 /\ byte_at bs 1 = 0 /\ len bs <> 20 /\
+   e = mkLenError 20 (len bs) LsSlice LIcmpv4TimestampReply 0).
+Proof. exact icmp4_reject_record. Qed.
+Print Assumptions C17_icmp4_reject_record.
+
+(* Icmpv6Slice::from_slice: fewer than 8 octets, or more than 2^32-1 (the crate's own bound; no
+   IPv6 payload, not even a jumbogram, can be longer) *)
+Theorem C17_icmp6_reject_iff : forall bs,
+  let R := len bs < 8 \/ 4294967295 < len bs in
+  ((exists e, Icmpv6Slice.view bs = ErrLen e) <-> R) /\
+  ((exists v, Icmpv6Slice.view bs = Ok v) <-> ~ R) /\
+  (forall n, Icmpv6Slice.view bs <> UB n).
+Proof. exact icmp6_reject_iff. Qed.
+Print Assumptions C17_icmp6_reject_iff.
+
+Theorem C17_icmp6_reject_record : forall bs e, Icmpv6Slice.view bs = ErrLen e ->
+  (len bs < 8 /\ e = mkLenError 8 (len bs) LsSlice LIcmpv6 0) \/
+  (4294967295 < len bs /\ e = mkLenError 4294967295 (len bs) LsSlice LIcmpv6 0).
+Proof. exact icmp6_reject_record. Qed.
+Print Assumptions C17_icmp6_reject_record.
+
+(* IgmpHeader::from_slice: fewer than 8 octets, or a membership query (0x11) of 9, 10 or 11 octets
+   (neither the 8-octet v1/v2 query nor a v3 query of at least 12 octets) *)
+Theorem C17_igmp_reject_iff : forall bs,
+  let R := len bs < 8 \/ (byte_at bs 0 = 17 /\ 8 < len bs /\ len bs < 12) in
+  ((exists e, Igmp.view bs = ErrLen e) <-> R) /\
+  ((exists v, Igmp.view bs = Ok v) <-> ~ R) /\
+  (forall n, Igmp.view bs <> UB n).
+Proof. exact igmp_reject_iff. Qed.
+Print Assumptions C17_igmp_reject_iff.
+
+Theorem C17_igmp_reject_record : forall bs e, Igmp.view bs = ErrLen e ->
+  (len bs < 8 /\ e = mkLenError 8 (len bs) LsSlice LIgmp 0) \/
+  (byte_at bs 0 = 17 /\ 8 < len bs /\ len bs < 12 /\ e = mkLenError 12 (len bs) LsSlice LIgmp 0).
+Proof. exact igmp_reject_record. Qed.
+Print Assumptions C17_igmp_reject_record.
+
+(* ReportGroupRecordV3Header::from_slice: fewer than the 8 octets of the record header *)
+Theorem C17_igmp_group_record_reject_iff : forall bs,
+  ((exists e, Igmp.group_record_from_slice bs = ErrLen e) <-> len bs < 8) /\
+  ((exists v, Igmp.group_record_from_slice bs = Ok v) <-> ~ len bs < 8) /\
+  (forall n, Igmp.group_record_from_slice bs <> UB n).
+Proof. exact group_record_reject_iff. Qed.
+Print Assumptions C17_igmp_group_record_reject_iff.
+
+(* ArpPacketSlice::from_slice: fewer than the 8 fixed octets, or fewer than the fixed octets plus
+   the four addresses announced by the two length octets (hardware 4, protocol 5) *)
+Theorem C17_arp_reject_iff : forall bs,
+  let R := len bs < 8 \/ len bs < 8 + 2 * byte_at bs 4 + 2 * byte_at bs 5 in
+  ((exists e, Arp.slice_view bs = ErrLen e) <-> R) /\
+  ((exists v, Arp.slice_view bs = Ok v) <-> ~ R) /\
+  (forall n, Arp.slice_view bs <> UB n).
+Proof. exact arp_view_reject_iff. Qed.
+Print Assumptions C17_arp_reject_iff.
+
+Theorem C17_arp_reject_record : forall bs e, Arp.slice_view bs = ErrLen e ->
+  (len bs < 8 /\ e = mkLenError 8 (len bs) LsSlice LArp 0) \/
+  (8 <= len bs /\ len bs < 8 + 2 * byte_at bs 4 + 2 * byte_at bs 5 /\
+   e = mkLenError (8 + 2 * byte_at bs 4 + 2 * byte_at bs 5) (len bs) LsArpAddrLengths LArp 0).
+Proof. exact arp_view_reject_record. Qed.
+Print Assumptions C17_arp_reject_record.
+
+(* ArpPacket::from_slice(..)?.try_eth_ipv4(): LenError exactly as above; otherwise the first
+   failing check in the order hardware type (1), protocol type (0x0800), hardware address size
+   (6), protocol address size (4) with the offending value; a packet exactly when all four hold *)
+Theorem C17_arp_eth_ipv4_outcomes : forall bs, bytes_ok bs ->
+  let r := Arp.eth_ipv4_view bs in
+  let hs := byte_at bs 4 in let ps := byte_at bs 5 in
+  let R := len bs < 8 \/ len bs < 8 + 2 * byte_at bs 4 + 2 * byte_at bs 5 in
+  ((exists e, r = ArpLenErr e) <-> R) /\
+  (forall e, r = ArpFromErr e <->
+     ~ R /\
+     (   (u16_at bs 0 <> 1 /\ e = NonMatchingHwType (u16_at bs 0))
+      \/ (u16_at bs 0 = 1 /\ u16_at bs 2 <> 2048 /\ e = NonMatchingProtocolType (u16_at bs 2))
+      \/ (u16_at bs 0 = 1 /\ u16_at bs 2 = 2048 /\ hs <> 6 /\ e = NonMatchingHwAddrSize hs)
+      \/ (u16_at bs 0 = 1 /\ u16_at bs 2 = 2048 /\ hs = 6 /\ ps <> 4 /\ e = NonMatchingProtoAddrSize ps))) /\
+  ((exists p, r = ArpOk p) <->
+     ~ R /\ u16_at bs 0 = 1 /\ u16_at bs 2 = 2048 /\ hs = 6 /\ ps = 4) /\
+  (forall n, r <> ArpUB n).
+Proof. exact arp_eth_ipv4_outcomes. Qed.
+Print Assumptions C17_arp_eth_ipv4_outcomes.
+
+(* non-vacuity: one input of every rejection class and an accepted neighbour of each *)
+Example C17_ex_reject_classes :
+  Icmpv4Slice.view [8; 0; 0; 0; 0; 1; 0] = ErrLen (mkLenError 8 7 LsSlice LIcmpv4 0) /\
+  Icmpv4Slice.view [14; 0; 0; 0; 0; 1; 0; 2; 9] = ErrLen (mkLenError 20 9 LsSlice LIcmpv4TimestampReply 0) /\
+  Icmpv4Slice.view [14; 1; 0; 0; 0; 1; 0; 2; 9] = Ok (V4Unknown 14 1 0 1 0 2, 8, [9]) /\
+  Icmpv6Slice.view [128; 0; 0; 0; 0; 1; 0] = ErrLen (mkLenError 8 7 LsSlice LIcmpv6 0) /\
+  Igmp.view [17; 100; 0; 0; 224; 0; 0; 1; 0; 0; 0] = ErrLen (mkLenError 12 11 LsSlice LIgmp 0) /\
+  Igmp.view [22; 100; 0; 0; 224; 0; 0; 1; 0; 0; 0] = Ok (IgMembershipReportV2 224 0 0 1, 0, 8, [0; 0; 0]) /\
+  Igmp.group_record_from_slice [1; 0; 0; 0; 224; 0; 0] = ErrLen (mkLenError 8 7 LsSlice LIgmp 0) /\
+  Arp.slice_view [0; 1; 8; 0; 2; 1; 0; 1; 1; 2; 3; 4; 5] = ErrLen (mkLenError 14 13 LsArpAddrLengths LArp 0) /\
+  (exists v, Arp.slice_view [0; 1; 8; 0; 2; 1; 0; 1; 1; 2; 3; 4; 5; 6] = Ok v) /\
+  Arp.eth_ipv4_view [0; 6; 8; 0; 1; 1; 0; 1; 1; 2; 3; 4] = ArpFromErr (NonMatchingHwType 6) /\
+  Arp.eth_ipv4_view [0; 1; 8; 6; 1; 1; 0; 1; 1; 2; 3; 4] = ArpFromErr (NonMatchingProtocolType 2054) /\
+  Arp.eth_ipv4_view [0; 1; 8; 0; 1; 1; 0; 1; 1; 2; 3; 4] = ArpFromErr (NonMatchingHwAddrSize 1) /\
+  Arp.eth_ipv4_view [0; 1; 8; 0; 6; 1; 0; 1; 1; 2; 3; 4; 5; 6; 7; 1; 2; 3; 4; 5; 6; 7]
+    = ArpFromErr (NonMatchingProtoAddrSize 1).
+Proof. repeat split; try (eexists; vm_compute; reflexivity); vm_compute; reflexivity. Qed.
+(* ==== round3 smalls end ==== *)
